@@ -51,6 +51,13 @@ impl Metadata {
 pub fn vfs_metadata(path: &Path) -> (r: Result<Metadata>)
     ensures r.is_ok() ==> r->Ok_0.l == file_len(path.id),
 { unimplemented!() }
+/// std::fs::symlink_metadata: metadata of the path ITSELF — for a symbolic link that is the link (a few bytes), not the file that a later
+/// `read` (which follows links) will load; only for a non-link path does it report the file's size
+pub uninterp spec fn is_symlink(p: u64) -> bool;
+#[verifier::external_body]
+pub fn vfs_symlink_metadata(path: &Path) -> (r: Result<Metadata>)
+    ensures r.is_ok() && !is_symlink(path.id) ==> r->Ok_0.l == file_len(path.id),
+{ unimplemented!() }
 // ---- canonical circuits (rebuilds from source; C17 compares artifacts against them)
 pub uninterp spec fn canon_leaf_vk() -> int;
 pub uninterp spec fn canon_leaf_common() -> CommonCircuitData<F, D>;
